@@ -245,10 +245,11 @@ PLANS["C13"] = {
     "rule": "the same logical resize / alpha operation is executed through plain typed images (reference) and through a random compiled "
             "container pair (10 source kinds x 7 destination kinds, typed and dynamic entry points) at a random placement (parent margins "
             "0..3 on every side, spare rows, partial tail row, nested crops, buffers ending at the last pixel); destination pixels must be "
-            "bit-identical; non-trivial = every case; distinct = distinct descriptor",
+            "bit-identical; threads step: the container pair inside rayon pools of 2/3/4/8 threads (bands are made by splitting the views) "
+            "against the plain pair in a 1-thread pool; non-trivial = every case; distinct = distinct descriptor",
     "assumptions": VIEW_ASSUME,
-    "quick": [step("rel", "firv-views", 160000), step("asan", "firv-views", 32000)],
-    "thorough": [step("rel", "firv-views", 4000000, timeout=7200), step("asan", "firv-views", 800000, timeout=7200)],
+    "quick": [step("rel", "firv-views", 160000), step("asan", "firv-views", 32000), step("rel+rayon", "firv-views", 48000, sub="threads")],
+    "thorough": [step("rel", "firv-views", 4000000, timeout=7200), step("asan", "firv-views", 800000, timeout=7200), step("rel+rayon", "firv-views", 1000000, sub="threads", timeout=7200)],
 }
 FLOORS["C13"] = {"quick": [
     ("every compiled container pair and >= 20 alpha paths used", lambda o: len(o["sets"]["container_pairs"]) >= 19 and len(o["sets"]["alpha_paths"]) >= 20),
